@@ -46,22 +46,24 @@ inductive Res where
   deriving DecidableEq, Repr
 
 /-- the loop of `collectArgs`; `dq`/`sq` = `inDoubleQuotes`/`inSingleQuotes`, `arg` the argument being
-    accumulated, `args` the finished ones -/
-def go : List Char → (dq sq : Bool) → (arg : Str) → (args : List Str) → Res
-  | [], dq, sq, arg, args => if sq || dq then .missingQuote else .ok (flush arg args)
-  | c :: rest, dq, sq, arg, args =>
+    accumulated, `args` the finished ones.  `esc` = the previous character was a backslash outside single
+    quotes and the loop body is about to execute its inner `c = cmd[pos++]` (at the end of the input:
+    the `pos == end` branch, which pushes the backslash and leaves the loop). -/
+def go : List Char → (dq sq esc : Bool) → (arg : Str) → (args : List Str) → Res
+  | [], dq, sq, esc, arg, args =>
+    if sq || dq then .missingQuote else .ok (flush (if esc then arg ++ ['\\'] else arg) args)
+  | c :: rest, dq, sq, true, arg, args =>
+    go rest dq sq false (if isEscapable c then arg ++ [c] else arg ++ ['\\', c]) args
+  | c :: rest, dq, sq, false, arg, args =>
     if c = ' ' then
-      if dq || sq then go rest dq sq (arg ++ [c]) args
-      else go rest dq sq [] (flush arg args)
-    else if c = '"' ∧ sq = false then go rest (!dq) sq arg args
-    else if c = '\'' ∧ dq = false then go rest dq (!sq) arg args
-    else if c = '\\' ∧ sq = false then
-      match rest with
-      | [] => if sq || dq then .missingQuote else .ok (flush (arg ++ ['\\']) args)   -- `break`
-      | d :: rest' => go rest' dq sq (if isEscapable d then arg ++ [d] else arg ++ ['\\', d]) args
-    else go rest dq sq (arg ++ [c]) args
+      if dq || sq then go rest dq sq false (arg ++ [c]) args
+      else go rest dq sq false [] (flush arg args)
+    else if c = '"' ∧ sq = false then go rest (!dq) sq false arg args
+    else if c = '\'' ∧ dq = false then go rest dq (!sq) false arg args
+    else if c = '\\' ∧ sq = false then go rest dq sq true arg args
+    else go rest dq sq false (arg ++ [c]) args
 
-def collectArgs (cmd : Str) : Res := go cmd false false [] []
+def collectArgs (cmd : Str) : Res := go cmd false false false [] []
 
 /-! ### quoting styles a build system produces -/
 
